@@ -171,3 +171,41 @@ func VerifC12_lookupCluster() {
 		}
 	}
 }
+
+// VerifC12_pathAsIs: the basic table is consulted with the request's (decoded) URL.Path as it is, whatever
+// bytes it contains (space, '%', '?', non-ASCII ... — bytes that a URL would carry escaped on the wire).
+// Product p has ONE basic rule whose path is "/" + two symbolic bytes (exact rule, or a prefix rule
+// "/<b1><b2>/*" requested with one more symbolic element) naming a real cluster, and an always-matching
+// advanced rule naming another cluster. As in VerifC12_lookupCluster the basic table's own answer comes from
+// an independent BasicRouteRuleTree.Get(host, URL.Path); it must be LookupCluster's answer.
+func VerifC12_pathAsIs() {
+	rb := vrt.Str("rule-path", 2)
+	vrt.Assume(rb[1] != '*') // keeps the rule an exact one / the prefix rule's root free of '*'
+	rulePath, path := "/"+rb, "/"+rb
+	if vrt.Choose("prefix-rule", 2) == 1 {
+		rulePath = rulePath + "/*"
+		path = path + "/" + vrt.Str("elem", 1)
+	}
+	b1 := "b1"
+	tree := mkTreeC12([]route_rule_conf.BasicRouteRuleFile{
+		{Hostname: []string{"a.x"}, Path: []string{rulePath}, ClusterName: &b1},
+	})
+	t := newHostTable()
+	t.productBasicRouteTree = route_rule_conf.ProductBasicRouteTree{"p": tree}
+	adv := &condC12{res: true}
+	t.productAdvancedRouteTable = route_rule_conf.ProductAdvancedRouteRule{
+		"p": route_rule_conf.AdvancedRouteRules{{Cond: adv, ClusterName: "zz"}},
+	}
+	req := &bfe_basic.Request{HttpRequest: &bfe_http.Request{Host: "a.x", URL: &url.URL{Path: path}}}
+	req.Route.Product = "p"
+
+	bc, bfound := tree.Get("a.x", path)
+
+	err := t.LookupCluster(req)
+
+	vrt.Assert(err == nil, "C12/path-as-is-found")
+	if bfound && err == nil {
+		vrt.Assert(req.Route.ClusterName == bc, "C12/path-as-is-basic-result")
+		vrt.Assert(adv.calls == 0, "C12/path-as-is-advanced-not-consulted")
+	}
+}
